@@ -1,6 +1,8 @@
 package main
 
 import (
+	"runtime"
+	"sync/atomic"
 	"bytes"
 	"context"
 	"crypto/sha256"
@@ -100,9 +102,20 @@ func newC16World(nw int) (*c16world, error) {
 	return w, nil
 }
 
+// c16Closed counts torn-down worlds: writers that were never finished keep their descriptor
+// until the os.File finalizer runs, so a collection is forced now and then (finishing them
+// through the store instead would add two unlinks and a directory sync per writer and world).
+var c16Closed atomic.Int64
+
 func (w *c16world) close() {
 	w.rec.Stop()
+	for _, wr := range w.writers {
+		wr.wc = nil
+	}
 	os.RemoveAll(w.dir)
+	if c16Closed.Add(1)%1500 == 0 {
+		runtime.GC()
+	}
 }
 
 func (w *c16world) enabled() []c16op {
@@ -418,7 +431,7 @@ func init() {
 		Cases: func(tier string) []Case {
 			nw, depth := 2, 7
 			if tier == "thorough" {
-				nw, depth = 3, 9
+				nw, depth = 3, 8
 			}
 			var cs []Case
 			// split by the first two operations so the subtrees run in parallel
@@ -431,6 +444,6 @@ func init() {
 			}
 			return cs
 		},
-		Rule: "breadth-first search over call sequences of 2 (quick) / 3 (thorough) writer slots: CreateFile with a scripted name draw (n0/n1, so every creation can collide with a committed, in-progress, failed-close or aborted name and must redraw), Write(valid bloom file A/B | garbage), Close, a second Close / an Abort / a Write on a finished writer, Close failing at fsync/rename, Abort, TombstoneFile after the writer finished, slot reuse after tombstone; depth 7 / 9, states deduplicated by (directory contents, writer states); after every step the real directory must equal the map model byte for byte, the scan must list exactly the valid successfully-closed untombstoned files and OpenFile must return the written bytes",
+		Rule: "breadth-first search over call sequences of 2 (quick) / 3 (thorough) writer slots: CreateFile with a scripted name draw (n0/n1, so every creation can collide with a committed, in-progress, failed-close or aborted name and must redraw), Write(valid bloom file A/B | garbage), Close, a second Close / an Abort / a Write on a finished writer, Close failing at fsync/rename, Abort, TombstoneFile after the writer finished, slot reuse after tombstone; depth 7 / 8, states deduplicated by (directory contents, writer states); after every step the real directory must equal the map model byte for byte, the scan must list exactly the valid successfully-closed untombstoned files and OpenFile must return the written bytes",
 	}
 }
